@@ -524,6 +524,24 @@ func requesterLeaks(c *Ctx, p *Path, e *Event, a *Term, secrets []string) string
 		return ""
 	}
 	if a.IsCall(".Sanitize") && len(a.Args) == 2 {
+		// the sanitized copy must not be re-filled before it is persisted
+		for _, ev := range p.Events[:e.Idx] {
+			if ev.Kind == "call" && ev.Recv != nil && ev.Recv.Key() == a.Key() && ev.Name == ".Merge" {
+				src := ev.Arg(0)
+				if !(src.IsCall(".Sanitize") && len(src.Args) == 2 && (src.Args[1].Op == "lit" || src.Args[1].Op == "nil") && requesterLeaks(c, p, ev, src, secrets) == "") {
+					return "the sanitized copy is merged with " + clip(src.Pretty(), 60) + " before being persisted: Merge copies the whole request form back"
+				}
+			}
+			formOfCopy := call(".GetRequestForm", a)
+			if ev.Kind == "mapupdate" && ev.Args[0].Key() == formOfCopy.Key() {
+				return "a form value is written into the sanitized copy before it is persisted"
+			}
+			if ev.Kind == "call" && (ev.Name == ".Set" || ev.Name == ".Add") && ev.Recv != nil && ev.Recv.Key() == formOfCopy.Key() {
+				if k, isC := ev.Arg(0).StrConst(); !isC || secretFormKeys[k] {
+					return "a form value is written into the sanitized copy before it is persisted"
+				}
+			}
+		}
 		w := a.Args[1]
 		switch {
 		case w.Op == "lit" || w.Op == "nil":
